@@ -231,7 +231,7 @@ func (w *World) heapStore(st *State, a string, t types.Type, v string) {
 	case *types.Struct:
 		si := w.structInfo(t)
 		for i := range si.Fields {
-			w.heapStore(st, app("fld", a, fmt.Sprint(si.Tags[i])), u.Field(i).Type(), app(selName(si, i), v))
+			w.heapStore(st, app("fld", a, fmt.Sprint(si.Tags[i])), u.Field(i).Type(), selApp(si, i, v))
 		}
 		return
 	case *types.Array:
@@ -289,7 +289,7 @@ func (w *World) typeFacts(v string, t types.Type) []string {
 	case *types.Struct:
 		si := w.structInfo(t)
 		for i := range si.Fields {
-			out = append(out, w.typeFacts(app(selName(si, i), v), u.Field(i).Type())...)
+			out = append(out, w.typeFacts(selApp(si, i, v), u.Field(i).Type())...)
 		}
 	}
 	return out
